@@ -94,6 +94,10 @@ func genRedefine(r *rand.Rand) redefCase {
 			t.Out[len(t.Out)-1].Type = randIface(r)
 		}
 	}
+	if len(t.Out) > 0 && wellFormedList(t.Out) && r.Intn(3) == 0 {
+		// results as a struct / pointer to a struct embedding argmapper.Struct
+		t.OutForm = 1 + r.Intn(2)
+	}
 	t.HasErr = r.Intn(2) == 0
 	if t.HasErr && r.Intn(8) == 0 {
 		t.Fail = true
@@ -278,7 +282,21 @@ func (rc *redefCase) opts(in *Inst, call int, r *rand.Rand) []am.Arg {
 func resultIDs(res *am.Result) []int64 {
 	var ids []int64
 	for i := 0; i < res.Len(); i++ {
-		id, _ := idOfIface(res.Out(i))
+		x := res.Out(i)
+		// a struct (or pointer to struct) result: the ids of its fields
+		if sv := reflect.ValueOf(x); sv.IsValid() {
+			for sv.Kind() == reflect.Ptr && !sv.IsNil() {
+				sv = sv.Elem()
+			}
+			if sv.Kind() == reflect.Struct && sv.NumField() > 0 && sv.Type().Field(0).Anonymous && sv.Type().Field(0).Type == structMarkerT {
+				for fi := 1; fi < sv.NumField(); fi++ {
+					id, _ := idOf(sv.Field(fi))
+					ids = append(ids, id)
+				}
+				continue
+			}
+		}
+		id, _ := idOfIface(x)
 		ids = append(ids, id)
 	}
 	return ids
@@ -292,7 +310,7 @@ func init() {
 			"half are random single-input converter sets; supplied values named and type-only; input/output filters = arbitrary type subsets expressed with FilterType/FilterOr/FilterAnd/raw predicates. " +
 			"Oracle: (i) every input of the redefined function passes the filter and is not a supplied (name,type); (ii) calling it with a fresh value per declared input fails only with an error value some body returned, otherwise the original target ran exactly once and Out(i)/Err() are exactly what that execution produced, C01 monitor (with relabelling through the redefined function's own inputs) holds; " +
 			"(iii) output rejected by the output filter => Redefine fails; (iv) every target parameter permitted => Redefine succeeds. non-trivial = Redefine succeeded and the redefined call executed >= 1 converter, or Redefine was (rightly) refused",
-		Assumptions: []string{"supplied values are concrete; a value for an interface-typed declared input is supplied type-only (the only form the matching rules accept for interface requirements)", "positional target results so that Out(i) can be compared id by id"},
+		Assumptions: []string{"supplied values are concrete; a value for an interface-typed declared input is supplied type-only (the only form the matching rules accept for interface requirements)", "target results positional or a (pointer to a) marker struct; ids compared one by one"},
 		Run:         runC08,
 		Floor: func(tier string, a *Agg) string {
 			if a.Obs["redefined_calls_with_conversion"] < 300 {
@@ -525,6 +543,27 @@ func init() {
 	})
 }
 
+// failingOnceScenario: a single-input chain in which one run-once converter
+// fails. Calls end with that converter's error; a Redefine afterwards must
+// still not execute anything.
+func failingOnceScenario(r *rand.Rand) Scenario {
+	for {
+		s, _ := Constructive(r, ChainCfg{MaxTgt: 1, MaxDepth: 2 + r.Intn(3), Distract: 0, BuiltP: 0, ErrP: 0.3})
+		var idx []int
+		for i := range s.Convs {
+			if s.Convs[i].InForm != FormBuilt {
+				idx = append(idx, i)
+			}
+		}
+		if len(idx) == 0 {
+			continue
+		}
+		i := pick(r, idx)
+		s.Convs[i].Once, s.Convs[i].HasErr, s.Convs[i].Fail, s.Convs[i].Deliver = true, true, true, DelFunc
+		return s
+	}
+}
+
 func stableScenario(r *rand.Rand) (Scenario, string) {
 	switch r.Intn(3) {
 	case 0:
@@ -554,6 +593,9 @@ func runC09(c *CaseCtx) (res CaseResult) {
 	}
 
 	s, fam := stableScenario(r)
+	if c.Idx%8 == 3 {
+		s, fam = failingOnceScenario(r), "failing-once"
+	}
 	res.Key = s.Key()
 	cf := factsOf(&s)
 	if inScopeC05(&s, &cf) == "" && fam != "exact" {
